@@ -13,6 +13,7 @@ import (
 	"os"
 	"runtime"
 	"strconv"
+	"strings"
 	"testing"
 	"time"
 )
@@ -50,7 +51,9 @@ type assertFailed struct{ msg string }
 type assumeFailed struct{}
 
 func next(kind string) uint64 {
-	for pos < len(replay.Nondet) && replay.Nondet[pos].Kind == "sched" {
+	// "sched" entries belong to the scheduler; "env-*" entries are values gosym drew for the
+	// environment (time.Now, rand, xid), which the native run takes from the real environment
+	for pos < len(replay.Nondet) && (replay.Nondet[pos].Kind == "sched" || strings.HasPrefix(replay.Nondet[pos].Kind, "env-")) {
 		pos++
 	}
 	if pos >= len(replay.Nondet) {
@@ -113,6 +116,9 @@ func Bytes(n int) []byte {
 func String(n int) string { return string(Bytes(n)) }
 
 func Choice(n int) int {
+	if n <= 1 {
+		return 0 // gosym records no decision for a single option
+	}
 	v := int(next("choice"))
 	if v >= n {
 		v = 0
